@@ -30,6 +30,7 @@ class Contract:
     replay: object = None            # callable(model_inputs) -> dict describing native outcome
     ghost_updates: dict = field(default_factory=dict)   # ghost lvalue -> expr, executed as ghost code at normal exit
     native_ensures: list = field(default_factory=list)  # extra clauses evaluated only in the native replay
+    type_map: dict = field(default_factory=dict)        # annotation text -> type string, for local annotations
     opaque_raise: bool = False      # operations on values of unknown type (SUT values) may raise any exception
     at_yield: list = field(default_factory=list)        # context-manager generators: clauses that hold while the body runs
     closure: dict = field(default_factory=dict)         # nested functions: free variables of the enclosing def -> type
@@ -44,6 +45,7 @@ class LoopSpec:
     decreases: str | None = None
     modifies: list | None = None     # override of the syntactically computed write set (heap lvalues)
     unroll: int | None = None
+    exit_asserts: list = field(default_factory=list)   # proved at the normal loop exit, then available after the loop (cuts)
 
 
 @dataclass
@@ -148,6 +150,13 @@ def type_alias(name, tstr):
 
 def exception(name, base="Exception"):
     REG.exceptions[name] = base
+
+
+def value_type(name):
+    """An abstract value type (e.g. a dict key made of ints/strings): == on it is identity of the abstract value."""
+    if not hasattr(REG, "value_types"):
+        REG.value_types = set()
+    REG.value_types.add(name)
 
 
 def global_var(key, tstr):
